@@ -117,7 +117,7 @@ CheckProc(r) ==
   ELSE IF r.policy = "stderr" /\ r.regions > 0 /\ r.want = "ok" /\ e2 < r.regions THEN Flag("MISMATCH", r.case, <<"diagnostics on standard error", e2, "regions", r.regions>>)
   ELSE IF r.want = "ok" /\ r.policy # "stdout" /\ r.checkrows /\ r.fd1 # r.base THEN Flag("MISMATCH", r.case, "rows on standard output differ from the in-process run")
   ELSE IF r.want = "ok" /\ r.policy \in {"ignore", "panic"} /\ r.fd2 # <<>> THEN Flag("MISMATCH", r.case, "something was written to standard error by a successful run")
-  ELSE IF (M!ExitCode = 0) # (r.code = 0) THEN Flag("DRIFT", r.case, <<"machine exit status", M!ExitCode, "observed", r.code>>)
+  ELSE IF r.exact /\ (M!ExitCode = 0) # (r.code = 0) THEN Flag("DRIFT", r.case, <<"machine exit status", M!ExitCode, "observed", r.code>>)
   ELSE TRUE
 
 Check(r) == CASE r.kind = "fault" -> CheckFault(r) [] r.kind = "ctx" -> CheckCtx(r) [] r.kind = "same" -> CheckSame(r)
